@@ -26,6 +26,8 @@ fn process_wildcard<T: Queryable>(
         path,
     }: Pointer<T>,
 ) -> Data<T> {
+    #[cfg(jsonpath_rust_verif)]
+    crate::verif::point(crate::verif::NODE);
     if let Some(array) = pointer.as_array() {
         if array.is_empty() {
             Data::Nothing
@@ -60,6 +62,8 @@ fn process_slice<'a, T: Queryable>(
     end: &Option<i64>,
     step: &Option<i64>,
 ) -> Data<'a, T> {
+    #[cfg(jsonpath_rust_verif)]
+    crate::verif::point(crate::verif::NODE);
     let extract_elems = |elements: &'a Vec<T>| -> Vec<(&'a T, usize)> {
         let len = elements.len() as i64;
         let norm = |i: i64| {
@@ -179,6 +183,8 @@ pub fn process_key<'a, T: Queryable>(
     Pointer { inner, path }: Pointer<'a, T>,
     key: &str,
 ) -> Data<'a, T> {
+    #[cfg(jsonpath_rust_verif)]
+    crate::verif::point(crate::verif::NODE);
     inner
         .get(normalize_json_key(key).as_str())
         .map(|v| Data::new_ref(Pointer::key(v, path, key)))
@@ -189,6 +195,8 @@ pub fn process_index<'a, T: Queryable>(
     Pointer { inner, path }: Pointer<'a, T>,
     idx: &i64,
 ) -> Data<'a, T> {
+    #[cfg(jsonpath_rust_verif)]
+    crate::verif::point(crate::verif::NODE);
     inner
         .as_array()
         .map(|array| {
